@@ -44,6 +44,17 @@ theorem offset_shrink (r : Rect) (k : Nat)
       Int.neg_neg, Int.toNat_natCast, Rect.mk.injEq, Pt.mk.injEq, Sz.mk.injEq]
     refine ⟨⟨?_, ?_⟩, ?_, ?_⟩ <;> omega
 
+/-- `offset(0)` is the identity (sizes within `u32`). -/
+theorem offset_zero (r : Rect) (hw : r.size.w ≤ 4294967295) (hh : r.size.h ≤ 4294967295) :
+    r.offset 0 = r := by
+  have := offset_grow r 0 (by omega) (by omega)
+  simp only [Int.natCast_zero, Nat.mul_zero, Nat.add_zero] at this
+  rw [this]
+  cases r with | mk tl size =>
+  cases tl; cases size
+  simp only [Rect.mk.injEq, Pt.mk.injEq, and_true]
+  constructor <;> omega
+
 /-- A rectangle lying (weakly) within an in-range rectangle is in range. -/
 theorem InRange.of_within {q sa : Rect} (h : sa.InRange)
     (hx : sa.tl.x ≤ q.tl.x ∧ q.tl.x + q.size.w ≤ sa.tl.x + sa.size.w)
